@@ -369,6 +369,9 @@ macro_rules! impl_log_normal {
 			#[inline]
 			fn try_from_mean_cv(mean: $ty, cv: $ty) -> Result<LogNormal<$ty>, NormalError> {
 				if cv == 0.0 {
+					if !(mean >= 0.0) {
+						return Err(NormalError::MeanTooSmall);
+					}
 					let mu = mean.ln();
 					let norm = Normal::try_new(mu, 0.0)?;
 					return Ok(LogNormal { norm });
